@@ -766,7 +766,11 @@ func (c *Client) Authenticate(username, password string) (User, error) {
 	c.mu.RLock()
 	au, ok := c.authCache[username]
 	c.mu.RUnlock()
-	if ok {
+	// An entry is only valid for the bcrypt hash it was verified against. The user
+	// record read above may be newer than the entry: an Authenticate that raced with
+	// a password change can insert an entry for the previous hash after
+	// updateAuthCache has run.
+	if ok && au.bhash == userInfo.Hash {
 		// verify the password using the cached salt and hash
 		if bytes.Equal(c.hashWithSalt(au.salt, password), au.hash) {
 			return userInfo, nil
